@@ -5,6 +5,7 @@ import (
 	"fmt"
 	"io"
 	"net"
+	"os"
 	"sort"
 	"sync"
 	"testing/synctest"
@@ -446,4 +447,136 @@ func (l *SimListener) Offer(c net.Conn) bool {
 	default:
 		return false
 	}
+}
+
+// ---- packet conn (DNS) ----
+
+// Datagram is one packet with its peer address.
+type Datagram struct {
+	Data []byte
+	Addr net.Addr
+}
+
+// SimPacketConn is a net.PacketConn fed and drained by the harness; deadlines
+// run on the fake clock.
+type SimPacketConn struct {
+	in     chan Datagram
+	closed chan struct{}
+	once   sync.Once
+
+	mu       sync.Mutex
+	rdl, wdl time.Time
+	out      []Datagram
+	WriteErr error
+}
+
+// NewPacketConn returns a packet conn.
+func NewPacketConn() *SimPacketConn {
+	return &SimPacketConn{in: make(chan Datagram, 1024), closed: make(chan struct{})}
+}
+
+// Feed hands a datagram to the reader.
+func (c *SimPacketConn) Feed(d Datagram) {
+	select {
+	case c.in <- d:
+	default:
+	}
+}
+
+// TakeOut returns and clears what was written.
+func (c *SimPacketConn) TakeOut() []Datagram {
+	c.mu.Lock()
+	defer c.mu.Unlock()
+	o := c.out
+	c.out = nil
+	return o
+}
+
+// SetWriteErr makes writes fail with err (nil = succeed again).
+func (c *SimPacketConn) SetWriteErr(err error) {
+	c.mu.Lock()
+	c.WriteErr = err
+	c.mu.Unlock()
+}
+
+// ReadFrom implements net.PacketConn.
+func (c *SimPacketConn) ReadFrom(p []byte) (int, net.Addr, error) {
+	c.mu.Lock()
+	dl := c.rdl
+	c.mu.Unlock()
+	var timeout <-chan time.Time
+	if !dl.IsZero() {
+		d := time.Until(dl)
+		if d <= 0 {
+			select {
+			case dg := <-c.in:
+				return copy(p, dg.Data), dg.Addr, nil
+			default:
+			}
+			return 0, nil, os.ErrDeadlineExceeded
+		}
+		t := time.NewTimer(d)
+		defer t.Stop()
+		timeout = t.C
+	}
+	select {
+	case dg := <-c.in:
+		return copy(p, dg.Data), dg.Addr, nil
+	case <-timeout:
+		return 0, nil, os.ErrDeadlineExceeded
+	case <-c.closed:
+		return 0, nil, net.ErrClosed
+	}
+}
+
+// WriteTo implements net.PacketConn.
+func (c *SimPacketConn) WriteTo(p []byte, addr net.Addr) (int, error) {
+	c.mu.Lock()
+	defer c.mu.Unlock()
+	select {
+	case <-c.closed:
+		return 0, net.ErrClosed
+	default:
+	}
+	if c.WriteErr != nil {
+		return 0, c.WriteErr
+	}
+	if !c.wdl.IsZero() && !time.Now().Before(c.wdl) {
+		return 0, os.ErrDeadlineExceeded
+	}
+	c.out = append(c.out, Datagram{Data: append([]byte(nil), p...), Addr: addr})
+	return len(p), nil
+}
+
+// Close implements net.PacketConn.
+func (c *SimPacketConn) Close() error {
+	c.once.Do(func() { close(c.closed) })
+	return nil
+}
+
+// LocalAddr implements net.PacketConn.
+func (c *SimPacketConn) LocalAddr() net.Addr { return simAddr("simpacket:53") }
+
+// SetDeadline implements net.PacketConn.
+func (c *SimPacketConn) SetDeadline(t time.Time) error {
+	c.mu.Lock()
+	c.rdl, c.wdl = t, t
+	c.mu.Unlock()
+	return nil
+}
+
+// SetReadDeadline implements net.PacketConn.
+func (c *SimPacketConn) SetReadDeadline(t time.Time) error {
+	c.mu.Lock()
+	c.rdl = t
+	c.mu.Unlock()
+	return nil
+}
+
+// SetWriteDeadline implements net.PacketConn.
+func (c *SimPacketConn) SetWriteDeadline(t time.Time) error {
+	c.mu.Lock()
+	c.wdl = t
+	c.mu.Unlock()
+	return nil
 }
